@@ -4,8 +4,146 @@
 // the table is `static`: reach it by including the translation unit itself
 #include <igris/util/crc.c>
 
+#include <sys/mman.h>
+#include <sys/wait.h>
+#include <fcntl.h>
+#include <sanitizer/asan_interface.h>
+#include <type_traits>
+
 using namespace hv;
 typedef std::vector<uint8_t> bytes;
+
+// ---------------------------------------------------------------- round 3 helpers
+// widths of the length / seed / result types, read out of the prototypes the build sees
+template <class R, class A, class B, class C> static std::string sz3(R (*)(A, B, C))
+{
+    return std::to_string(sizeof(B)) + " " + std::to_string(sizeof(C)) + " " + std::to_string(sizeof(R));
+}
+template <class R, class A, class B> static std::string sz2(R (*)(A, B)) { return std::to_string(sizeof(B)) + " " + std::to_string(sizeof(R)); }
+template <class A, class B> static std::string szs(void (*)(A, B))
+{
+    return std::to_string(sizeof(typename std::remove_pointer<A>::type)) + " " + std::to_string(sizeof(B));
+}
+template <class R, class A, class B, class C> static uint64_t lenmask(R (*)(A, B, C)) { return sizeof(B) >= 8 ? ~0ull : ((1ull << (8 * sizeof(B))) - 1); }
+template <class R, class A, class B> static uint64_t lenmask(R (*)(A, B)) { return sizeof(B) >= 8 ? ~0ull : ((1ull << (8 * sizeof(B))) - 1); }
+
+// the message generator shared with the Lean driver: 32-bit LCG, top byte (mode 1: one constant byte)
+static bytes gen_data(size_t n, uint32_t gseed, int mode)
+{
+    bytes m(n);
+    if (mode == 1)
+    {
+        if (n) memset(m.data(), (uint8_t)gseed, n);
+        return m;
+    }
+    uint32_t x = gseed;
+    for (size_t i = 0; i < n; i++)
+    {
+        x = x * 1664525u + 1013904223u;
+        m[i] = (uint8_t)(x >> 24);
+    }
+    return m;
+}
+
+// heap copy with red zones on BOTH sides: the payload ends at the end of the allocation (ASan's right red
+// zone, byte exact) and is preceded by `align` bytes of padding in front of which one whole 8-byte granule is
+// poisoned by hand (ASan cannot poison the front part of a granule whose rest is addressable: with align == 0
+// the payload starts at the start of the allocation and the left red zone is byte exact, otherwise an
+// under-read is seen once it reaches more than `align` bytes back).
+struct rz_buf
+{
+    uint8_t *base, *p;
+    size_t n, pad;
+    rz_buf(const bytes &v, size_t align) : n(v.size()), pad(align ? 8 + align : 0)
+    {
+        base = (uint8_t *)malloc(pad + n ? pad + n : 1);
+        p = base + pad;
+        if (n) memcpy(p, v.data(), n);
+        if (pad) ASAN_POISON_MEMORY_REGION(base, 8);
+    }
+    ~rz_buf()
+    {
+        if (pad) ASAN_UNPOISON_MEMORY_REGION(base, 8);
+        free(base);
+    }
+    rz_buf(const rz_buf &) = delete;
+};
+
+// three pages NONE | data | NONE: the payload is placed flush with the end (or the start) of the middle page,
+// which is then made READ-ONLY: a store, a read behind the end or in front of the start is a SIGSEGV
+struct guard_pages
+{
+    uint8_t *reg;
+    size_t pg;
+    guard_pages()
+    {
+        pg = (size_t)sysconf(_SC_PAGESIZE);
+        reg = (uint8_t *)mmap(0, 3 * pg, PROT_NONE, MAP_PRIVATE | MAP_ANONYMOUS, -1, 0);
+    }
+    const uint8_t *place(const bytes &v, bool at_end)
+    {
+        uint8_t *mid = reg + pg;
+        mprotect(mid, pg, PROT_READ | PROT_WRITE);
+        uint8_t *q = at_end ? mid + pg - v.size() : mid;
+        if (v.size()) memcpy(q, v.data(), v.size());
+        mprotect(mid, pg, PROT_READ);
+        return q;
+    }
+};
+
+// a few calls made BEFORE main() (static initialisation order: the routines must not depend on anything that
+// is initialised dynamically)
+struct PreMain
+{
+    char text[96];
+    PreMain()
+    {
+        // only in `run` mode (a defect of the library must not take the generator down): argv[1] from /proc
+        text[0] = 0;
+        char cmd[512];
+        FILE *f = fopen("/proc/self/cmdline", "rb");
+        size_t k = f ? fread(cmd, 1, sizeof cmd - 1, f) : 0;
+        if (f) fclose(f);
+        cmd[k] = 0;
+        size_t a0 = strlen(cmd);
+        if (a0 + 1 >= k || strcmp(cmd + a0 + 1, "run") != 0) return;
+        // in a forked child, so that a fault before main() is reported by the op `premain` and by nothing else
+        int fd[2];
+        if (pipe(fd) != 0) return;
+        pid_t pid = fork();
+        if (pid == 0)
+        {
+            close(fd[0]);
+            int dn = open("/dev/null", O_WRONLY); // the sanitizer report of the child is not an op's report
+            if (dn >= 0) dup2(dn, 2);
+            compute();
+            (void)!write(fd[1], text, strlen(text));
+            _exit(0);
+        }
+        close(fd[1]);
+        ssize_t got = pid > 0 ? read(fd[0], text, sizeof text - 1) : -1;
+        close(fd[0]);
+        int st = 0;
+        if (pid > 0) waitpid(pid, &st, 0);
+        if (got <= 0 || !WIFEXITED(st) || WEXITSTATUS(st) != 0)
+            snprintf(text, sizeof text, "fault-before-main");
+        else
+            text[got] = 0;
+    }
+    void compute()
+    {
+        uint8_t *m9 = (uint8_t *)malloc(9), *z4 = (uint8_t *)malloc(4);
+        memcpy(m9, "123456789", 9);
+        memset(z4, 0, 4);
+        uint8_t sm = 0xff;
+        for (int i = 0; i < 9; i++) igris_strmcrc8(&sm, (char)m9[i]);
+        snprintf(text, sizeof text, "%02x %02x %04x %02x %08x %02x", igris_crc8_table(m9, 9, 0), igris_crc8(m9, 9, 0), igris_crc16(m9, 9, 0),
+                 igris_mmc_crc7(m9, 9), igris_crc32(z4, 4, 0xffffffffu), sm);
+        free(m9);
+        free(z4);
+    }
+};
+__attribute__((init_priority(101))) static PreMain premain_obj;
 
 // ---------------------------------------------------------------- references
 // Independent bit-at-a-time definitions ("Rocksoft" parameterisation).
@@ -69,9 +207,221 @@ static uint8_t strm(uint8_t seed, const uint8_t *p, size_t n)
     return c;
 }
 
+static uint32_t call_rt(const std::string &rt, const uint8_t *p, uint64_t n, uint32_t seed)
+{
+    // `n` is converted to the parameter's type by the call itself
+    if (rt == "crc8") return igris_crc8(p, n, seed);
+    if (rt == "crc8t") return igris_crc8_table(p, n, seed);
+    if (rt == "crc16") return igris_crc16(p, n, seed);
+    if (rt == "mmc7") return igris_mmc_crc7(p, n);
+    return igris_crc32(p, n, seed);
+}
+static uint32_t ref_rt(const std::string &rt, uint32_t seed, const bytes &m)
+{
+    if (rt == "strm") return ref_msb(8, 0x31, seed & 0xff, m);
+    if (rt == "crc8" || rt == "crc8t") return ref_lsb(0x8C, seed & 0xff, m);
+    if (rt == "crc16") return ref_msb(16, 0x1021, seed & 0xffff, m);
+    if (rt == "mmc7") return ref_msb(7, 0x09, 0, m);
+    return ref_msb(32, 0x04C11DB7, seed, crc32_bitorder(m));
+}
+static int digits_rt(const std::string &rt) { return rt == "crc32" ? 8 : rt == "crc16" ? 4 : 2; }
+static uint64_t mask_rt(const std::string &rt)
+{
+    if (rt == "crc8") return lenmask(igris_crc8);
+    if (rt == "crc8t") return lenmask(igris_crc8_table);
+    if (rt == "crc16") return lenmask(igris_crc16);
+    if (rt == "mmc7") return lenmask(igris_mmc_crc7);
+    return lenmask(igris_crc32);
+}
+
+static bool run_round3(const std::vector<std::string> &w, out &o)
+{
+    const std::string &op = w[0];
+    if (op == "tbl32")
+    {
+        // crcTable is a function-local static: entry k = igris_crc32 of the little-endian word k from seed 0
+        // (seven shifts move the nibble k to the top, the eighth step returns crcTable[k]; Lean: crc32Table_readout)
+        std::string r;
+        for (unsigned k = 0; k < 16; k++)
+        {
+            bytes wd = {(uint8_t)k, 0, 0, 0};
+            exact_buf b(wd);
+            r += (k ? " " : "") + hexn(igris_crc32(b.p, 4, 0), 8);
+        }
+        o.result = r;
+        o.tag("tbl32");
+        return true;
+    }
+    if (op == "sizes")
+    {
+        o.result = "crc8 " + sz3(igris_crc8) + "|crc8t " + sz3(igris_crc8_table) + "|crc16 " + sz3(igris_crc16) + "|mmc7 " + sz2(igris_mmc_crc7) +
+                   "|crc32 " + sz3(igris_crc32) + "|strm " + szs(igris_strmcrc8) + "|tbl8 " + std::to_string(sizeof dscrc2x16_table);
+        o.tag("sizes");
+        return true;
+    }
+    if (op == "premain")
+    {
+        o.result = premain_obj.text;
+        if (o.result != "a1 a1 31c3 75 c704dd7b f7") o.fail("catalogue check values computed before main() are wrong: " + o.result);
+        o.tag("premain");
+        return true;
+    }
+    if (op == "strmobj")
+    {
+        // ONE crc object (an exactly sized 1-byte heap cell) used for several messages: i:<v> (re-)initialises it,
+        // f:<hex> feeds bytes one at a time; the value after every token is reported
+        exact_buf cell(bytes(1, 0));
+        uint32_t ref = 0;
+        std::string r;
+        bool reinit = false, cont = false;
+        for (size_t k = 1; k < w.size(); k++)
+        {
+            const std::string &t = w[k];
+            if (t[0] == 'i')
+            {
+                *cell.p = (uint8_t)strtoul(t.c_str() + 2, 0, 16);
+                ref = *cell.p;
+                reinit = true;
+            }
+            else
+            {
+                bytes m = unhex(t.substr(2));
+                exact_buf b(m);
+                for (size_t i = 0; i < m.size(); i++) igris_strmcrc8(cell.p, (char)b.p[i]);
+                ref = ref_msb(8, 0x31, ref, m); // continuation of whatever the object held
+                if (k > 1 && w[k - 1][0] == 'f') cont = true;
+            }
+            r += (k > 1 ? " " : "") + hexn(*cell.p, 2);
+            if (*cell.p != ref) o.fail("strmcrc8 object after token " + std::to_string(k) + " != reference over the bytes fed since the last init");
+        }
+        o.result = r;
+        o.tag("strmobj");
+        if (reinit) o.tag("strm-reinit");
+        if (cont) o.tag("strm-no-reinit");
+        return true;
+    }
+    if (op == "acc")
+    {
+        // acc <routine> <len> <seed> <bytes> <align>: exactly the len bytes exist, red zones on both sides,
+        // then the same bytes on a read-only page flush with its end and flush with its start
+        static guard_pages gp;
+        const std::string &rt = w[1];
+        size_t n = strtoul(w[2].c_str(), 0, 10);
+        uint32_t seed = (uint32_t)strtoul(w[3].c_str(), 0, 16);
+        bytes m = unhex(w[4]);
+        size_t align = w.size() > 5 ? strtoul(w[5].c_str(), 0, 10) : 0;
+        rz_buf b(m, align);
+        uint32_t r = call_rt(rt, b.p, n, seed);
+        bool wrote = m.size() && memcmp(b.p, m.data(), m.size()) != 0;
+        bool recall = false;
+        if (n >= 1 && n <= m.size())
+        {
+            // the SAME object again, immediately, with changed contents (same address, length and seed) and
+            // then with the old contents restored: nothing may be remembered between calls
+            bytes m2 = m;
+            m2[(seed ^ n) % n] ^= (uint8_t)(1u << (seed % 8));
+            memcpy(b.p, m2.data(), m2.size());
+            if (call_rt(rt, b.p, n, seed) != ref_rt(rt, seed, bytes(m2.begin(), m2.begin() + n)))
+                o.fail(rt + ": second call on the same buffer after its contents changed != reference");
+            memcpy(b.p, m.data(), m.size());
+            if (call_rt(rt, b.p, n, seed) != r)
+                o.fail(rt + ": third call on the same buffer with the first contents restored != first result");
+            recall = true;
+        }
+        wrote = wrote || (m.size() && memcmp(b.p, m.data(), m.size()) != 0);
+        uint32_t r2 = call_rt(rt, gp.place(m, true), n, seed);
+        uint32_t r3 = call_rt(rt, gp.place(m, false), n, seed);
+        o.result = hexn(r, digits_rt(rt)) + " r[0," + std::to_string(n) + ") " + (wrote ? "w!" : "w-");
+        if (wrote) o.fail(rt + " modified its input buffer");
+        if (r2 != r || r3 != r) o.fail(rt + ": the result depends on where the buffer lies");
+        bytes pre(m.begin(), m.begin() + (n < m.size() ? n : m.size()));
+        if (r != ref_rt(rt, seed, pre)) o.fail(rt + " != reference over the first len bytes");
+        o.tag(("acc-" + rt).c_str());
+        if (recall) o.tag("acc-recall");
+        if (align) o.tag("acc-misaligned");
+        if (n == 0) o.tag("acc-len0");
+        return true;
+    }
+    if (op == "trunc")
+    {
+        // trunc <routine> <n> <seed> <gseed>: n (up to 2^33) is converted to the length parameter's type by the
+        // call; exactly (n mod 2^width) bytes exist, so a wider parameter than the model's would over-read
+        const std::string &rt = w[1];
+        uint64_t n = strtoull(w[2].c_str(), 0, 10);
+        uint32_t seed = (uint32_t)strtoul(w[3].c_str(), 0, 16);
+        uint32_t gs = (uint32_t)strtoul(w[4].c_str(), 0, 10);
+        bytes m = gen_data((size_t)(n & mask_rt(rt)), gs, 0);
+        exact_buf b(m);
+        uint32_t r = call_rt(rt, b.p, n, seed);
+        o.result = hexn(r, digits_rt(rt));
+        if (r != ref_rt(rt, seed, m)) o.fail(rt + " with length " + std::to_string(n) + " != reference over (length mod 2^width) bytes");
+        o.tag(("trunc-" + rt).c_str());
+        return true;
+    }
+    if (op == "big")
+    {
+        // big <routine> <n> <seed> <gseed> <mode> <align> <chunk>: generated message of n bytes fed in calls of at
+        // most <chunk> bytes with the running value as seed (0 = one call)
+        const std::string &rt = w[1];
+        size_t n = strtoul(w[2].c_str(), 0, 10);
+        uint32_t seed = (uint32_t)strtoul(w[3].c_str(), 0, 16);
+        uint32_t gs = (uint32_t)strtoul(w[4].c_str(), 0, 10);
+        int mode = atoi(w[5].c_str());
+        size_t align = strtoul(w[6].c_str(), 0, 10), chunk = strtoul(w[7].c_str(), 0, 10);
+        bytes m = gen_data(n, gs, mode);
+        exact_buf b(m, align);
+        uint32_t r = seed;
+        size_t calls = 0;
+        if (rt == "strm")
+            r = strm((uint8_t)seed, b.p, n), calls = n;
+        else if (rt == "mmc7")
+            r = igris_mmc_crc7(b.p, (uint8_t)n), calls = 1;
+        else if (n == 0)
+            r = call_rt(rt, b.p, 0, seed), calls = 1;
+        else
+            for (size_t off = 0; off < n; calls++)
+            {
+                size_t l = chunk && chunk < n - off ? chunk : n - off;
+                r = call_rt(rt, b.p + off, l, r);
+                off += l;
+            }
+        o.result = hexn(r, digits_rt(rt));
+        uint32_t ref = ref_rt(rt, seed, m);
+        if (r != ref) o.fail(rt + " of " + std::to_string(n) + " bytes in " + std::to_string(calls) + " call(s) != reference " + hexn(ref, digits_rt(rt)));
+        if (rt == "strm")
+        {
+            // residue: the message followed by its own CRC leaves 0 in the object
+            uint8_t c = (uint8_t)r;
+            igris_strmcrc8(&c, (char)r);
+            if (c != 0) o.fail("strmcrc8 residue != 0 after " + std::to_string(n) + " bytes");
+        }
+        // two-piece chaining at split points around the counter-width boundaries
+        static const size_t cuts[] = {252, 256, 260, 65532, 65536, 65540, 262140, 262144, 262148, 524288};
+        if (rt == "crc32" || rt == "crc16" || rt == "strm")
+            for (size_t k : cuts)
+            {
+                if (k > n) break;
+                size_t k2 = rt == "crc32" ? k : k - 1 + (k / 4) % 3; // 255/256/257 … for the byte-wise routines
+                if (k2 > n) continue;
+                if (rt == "crc16" && (k2 > 65535 || n - k2 > 65535)) continue;
+                uint32_t c = rt == "strm" ? strm(strm((uint8_t)seed, b.p, k2), b.p + k2, n - k2)
+                                          : call_rt(rt, b.p + k2, n - k2, call_rt(rt, b.p, k2, seed));
+                if (c != ref) o.fail(rt + " chaining at split " + std::to_string(k2) + " of " + std::to_string(n));
+            }
+        o.tag(("big-" + rt).c_str());
+        if (n >= 262144) o.tag("len>=2^18");
+        if (n >= 300 * 1024) o.tag("len>=300KiB");
+        if (n >= 1048576) o.tag("len>=1MiB");
+        if (calls > 1 && rt != "strm") o.tag("chunked");
+        return true;
+    }
+    return false;
+}
+
 static void run_op(const std::vector<std::string> &w, const std::string &, out &o)
 {
     const std::string &op = w[0];
+    if (run_round3(w, o)) return;
     if (op == "tbl8")
     {
         o.result = hex(dscrc2x16_table, sizeof dscrc2x16_table);
@@ -250,11 +600,81 @@ static std::string rnd_hex(rng &r, size_t n)
     return hex(m);
 }
 
+static void gen_round3(rng &r, bool th)
+{
+    puts("tbl32");
+    puts("sizes");
+    puts("premain");
+    const char *rts[5] = {"crc8", "crc8t", "crc16", "mmc7", "crc32"};
+    // (a) access extent: every length 0..64 at every alignment 0..7, exactly sized buffers with red zones on both sides
+    for (const char *rt : rts)
+        for (int len = 0; len <= 64; len++)
+            for (unsigned a = 0; a < 8; a++)
+            {
+                std::string srt = rt;
+                unsigned seed = (unsigned)(srt == "crc32" ? r.next() & 0xffffffffu : srt == "crc16" ? r.below(65536) : r.below(256));
+                printf("acc %s %d %x %s %u\n", rt, len, seed, rnd_hex(r, len).c_str(), a);
+            }
+    // (b) the length argument beyond the parameter's type
+    for (unsigned long long n : {256ull, 257ull, 511ull, 65536ull + 2, (1ull << 32) + 1})
+        for (const char *rt : {"crc8", "crc8t", "mmc7"})
+            printf("trunc %s %llu %x %u\n", rt, n, (unsigned)r.below(256), (unsigned)r.next());
+    for (unsigned long long n : {65536ull, 65537ull, 65536ull + 300, 131071ull, (1ull << 32) + 5})
+        printf("trunc crc16 %llu %x %u\n", n, (unsigned)r.below(65536), (unsigned)r.next());
+    for (unsigned long long n : {1ull << 32, (1ull << 32) + 1, (1ull << 32) + 7, (1ull << 33) + 4})
+        printf("trunc crc32 %llu %x %u\n", n, (unsigned)r.next(), (unsigned)r.next());
+    // (c) lengths around every counter width, up to 1 MiB, generated messages; the 8- and 16-bit length routines
+    //     are fed in calls of the largest length their parameter can express (and a few smaller chunkings)
+    std::vector<size_t> lens = {0, 1, 255, 256, 257, 65535, 65536, 65537, 262143, 262144, 262145, 524288 + 3, 1048576 + 5};
+    if (th)
+        for (int i = 0; i < 6; i++) lens.push_back((size_t)r.range(1, 3 << 20));
+    for (size_t n : lens)
+    {
+        unsigned al = (unsigned)r.below(8);
+        int mode = r.chance(15) ? 1 : 0;
+        printf("big strm %zu %x %u %d %u 0\n", n, (unsigned)r.below(256), (unsigned)r.next(), mode, al);
+        printf("big crc8 %zu %x %u %d %u 255\n", n, (unsigned)r.below(256), (unsigned)r.next(), mode, al);
+        printf("big crc8t %zu %x %u %d %u 255\n", n, (unsigned)r.below(256), (unsigned)r.next(), mode, al);
+        printf("big crc16 %zu %x %u %d %u %d\n", n, (unsigned)r.below(65536), (unsigned)r.next(), mode, al, n <= 65535 && r.chance(50) ? 0 : 65535);
+        printf("big crc32 %zu %x %u %d %u 0\n", n, (unsigned)r.next(), (unsigned)r.next(), mode, al);
+        if (n <= 255) printf("big mmc7 %zu 0 %u %d %u 0\n", n, (unsigned)r.next(), mode, al);
+        // other chunkings (crc32: multiples of four only, see finding C17-crc32-split)
+        if (n == 255 || n == 65537 || n == 262145 || n == 524288 + 3 || (th && n > 255))
+        {
+            printf("big crc8 %zu %x %u %d %u %d\n", n, (unsigned)r.below(256), (unsigned)r.next(), mode, al, (int)r.range(1, 254));
+            printf("big crc8t %zu %x %u %d %u %d\n", n, (unsigned)r.below(256), (unsigned)r.next(), mode, al, (int)r.range(1, 254));
+            printf("big crc16 %zu %x %u %d %u %d\n", n, (unsigned)r.below(65536), (unsigned)r.next(), mode, al, (int)r.pick(std::vector<int>{256, 257, 32768, 65532, 65534}));
+            printf("big crc32 %zu %x %u %d %u %d\n", n, (unsigned)r.next(), (unsigned)r.next(), mode, al, (int)r.pick(std::vector<int>{4, 256, 65536, 262144, 262148, 1 << 19}));
+        }
+    }
+    // (d) one streaming-CRC object used for several messages: re-initialised, not re-initialised, after a whole frame
+    for (int i = 0; i < (th ? 600 : 120); i++)
+    {
+        std::string l = "strmobj";
+        int toks = (int)r.range(1, 6);
+        for (int k = 0; k < toks; k++)
+        {
+            if (k == 0 ? r.chance(80) : r.chance(45)) l += " i:" + hexn(r.chance(50) ? 0xff : r.below(256), 2);
+            std::string h = rnd_hex(r, (size_t)r.range(0, 20));
+            l += " f:" + (h == "-" ? std::string("") : h);
+        }
+        puts(l.c_str());
+    }
+    // a frame (message + its own CRC: residue 0) followed, without re-initialisation, by the next message
+    for (int i = 0; i < 20; i++)
+    {
+        bytes m = unhex(rnd_hex(r, (size_t)r.range(1, 12)));
+        uint8_t c = (uint8_t)ref_msb(8, 0x31, 0xff, m);
+        printf("strmobj i:ff f:%s f:%02x f:%s\n", hex(m).c_str(), c, rnd_hex(r, (size_t)r.range(1, 12)).c_str());
+    }
+}
+
 static void gen(rng &r, const std::string &tier)
 {
     bool th = tier == "thorough";
     puts("tbl8");
     puts("check");
+    gen_round3(r, th);
     // explicit length argument: 0 (nothing mapped / something mapped), a prefix of the mapped bytes, the maximum of the type
     for (const char *rt : {"crc8", "crc8t", "crc16", "mmc7", "crc32"})
     {
